@@ -11,9 +11,9 @@ import Proofs.SqlBuildShape
   Model: PyxModel/Sql (lexer following the rule order of Gen/SqlLex.lean, parser, build phases, loader as a
   state machine).  What Lean carries is the LOGIC of the loader: a total classification of every text, the state
   machine `input`, the documented outcome of every build.  The model makes the outcome the property forbids explicit
-  (`BuildErr.builtinErr` at the three places where the Python code can raise a built-in exception during a build, and
-  `BuildErr.unmodelled` for identifiers of the form `__x__`, the open finding) and `build_documented` shows it cannot be
-  reached.  For `input` the model has two outcomes only: the token and grammar actions of the source slice, count and
+  (`BuildErr.builtinErr` at the three places where the Python code can raise a built-in exception during a build) and
+  `build_outcome_total` shows it cannot be reached.  Identifiers of the form `__x__` in attribute positions are rejected
+  with the metamodel exception by `define_class` / `define_association` (repaired in 7fb506e; formerly the open finding).  For `input` the model has two outcomes only: the token and grammar actions of the source slice, count and
   concatenate, none of them can raise -- that is a reading of the source, checked by the direct predicate (D) on the
   implementation, not a theorem; what is proved about `input` is that a rejection is never fuel exhaustion
   (`lexer_total`, `parser_total`, `sequence_fuel`).  The exception discipline of the Python code and its running time are
@@ -85,13 +85,13 @@ theorem later_calls_unaffected (u : UC) (l : Loader) (bad : Text) (later : List 
   simp [Loader.inputs, input_atomic u l bad h]
 
 /-- NO BUILT-IN EXCEPTION FROM A BUILD: statements whose values have a lexical form `guess_type_name` knows (every value
-    the parser produces has one) and that use no identifier of the form `__x__` as attribute name, named INSERT column
-    or association key build, or end in the metamodel exception, or in the parsing exception.  The outcome type of the
-    model has two more constructors, `builtinErr` -- returned at `stmt.values[idx]` (IndexError), at `default_value(None)`
-    (AttributeError) and at `_is_null`'s `len(value)` (TypeError) -- and `unmodelled`; neither is reached. -/
-theorem build_outcome_total (u : UC) (stmts : List Stmt) (hp : touchesInternals stmts = false) (hg : ValuesGuessable u stmts) :
+    the parser produces has one: `values_classified`) build, or end in the metamodel exception, or in the parsing
+    exception.  The outcome type of the model has one more constructor, `builtinErr` -- returned at `stmt.values[idx]`
+    (IndexError), at `default_value(None)` (AttributeError) and at `_is_null`'s `len(value)` (TypeError); it is not reached.
+    (Attribute names and source keys of the form `__x__` end in the metamodel exception: `reserved_names_rejected`.) -/
+theorem build_outcome_total (u : UC) (stmts : List Stmt) (hg : ValuesGuessable u stmts) :
     (∃ s, build u stmts = .ok s) ∨ build u stmts = .error .metaErr ∨ build u stmts = .error .parseErr :=
-  build_documented u stmts hp hg
+  build_documented u stmts hg
 
 /-- the hypothesis `ValuesGuessable` of `build_outcome_total` holds for the statements of EVERY accepted text: every
     token the lexer returns for a value has a lexeme `guess_type_name` classifies (the STRING / GUID lexeme is matched by
@@ -100,15 +100,13 @@ theorem build_outcome_total (u : UC) (stmts : List Stmt) (hp : touchesInternals 
 theorem values_classified (u : UC) (text : Text) (stmts : List Stmt) (h : classify u text = .accepted stmts) :
     ValuesGuessable u stmts := accepted_guessable u text stmts h
 
-/-- NO BUILT-IN EXCEPTION, for a loader: whatever texts were fed to it (accepted or rejected, in any order), if the
-    statements it holds use no identifier of the form `__x__` in an attribute position, `build_metamodel` returns a
-    metamodel or raises the metamodel exception or the parsing exception -/
-theorem loader_no_builtin (u : UC) (texts : List Text)
-    (hp : touchesInternals (Loader.inputs u Loader.fresh texts).statements = false) :
+/-- NO BUILT-IN EXCEPTION, for a loader: whatever texts were fed to it (accepted or rejected, in any order),
+    `build_metamodel` returns a metamodel or raises the metamodel exception or the parsing exception -/
+theorem loader_no_builtin (u : UC) (texts : List Text) :
     (∃ s, (Loader.inputs u Loader.fresh texts).build u = .ok s) ∨
     (Loader.inputs u Loader.fresh texts).build u = .error .metaErr ∨
     (Loader.inputs u Loader.fresh texts).build u = .error .parseErr :=
-  loader_build_documented u texts hp
+  loader_build_documented u texts
 
 /-- … of which the fifth phase: in every state that phases 1–4 reach, `_is_null` calls `len` on strings only
     (invariant: class names distinct after upper-casing, every stored value of a STRING attribute is a string) -/
@@ -124,8 +122,8 @@ theorem connections_never_raise (u : UC) (stmts : List Stmt) (s : BState) (h : b
     `pre ++ INSERT :: post`, the INSERTs of `pre` succeed from `s3` leaving `s'`, and that INSERT fails in `s'` with `e`
     (`InsertFails`: arity [parsing], name clash of an inferred class [metamodel], unguessable value [built-in],
     unknown attribute type [metamodel], unreadable value [parsing]) -/
-theorem build_fails_iff (u : UC) (stmts : List Stmt) (e : BuildErr) (hp : touchesInternals stmts = false) :
-    build u stmts = .error e ↔ Failure u stmts e := build_error_iff u stmts e hp
+theorem build_fails_iff (u : UC) (stmts : List Stmt) (e : BuildErr) :
+    build u stmts = .error e ↔ Failure u stmts e := build_error_iff u stmts e
 
 /-- … and one INSERT, in the state the earlier statements left, with the tests spelled out -/
 theorem insert_fails_iff (u : UC) (s : BState) (kind : Name) (values : List Text) (names : Option (List Name)) (e : BuildErr) :
@@ -157,7 +155,7 @@ theorem build_success (u : UC) (stmts : List Stmt) (h : BuildOk u stmts) :
     two class names equal after upper-casing; a class with two attribute names equal after upper-casing; an identifier (with attributes) for an undeclared class; an association
     whose source or target class is undeclared, whose key lists differ in length, or whose target class lacks a target
     key (`RopBad`) — the latter two when the earlier phases succeed -/
-theorem build_outcome_complete_meta (u : UC) (stmts : List Stmt) (hp : touchesInternals stmts = false) :
+theorem build_outcome_complete_meta (u : UC) (stmts : List Stmt) :
     (¬ KindsDistinct u (newTables stmts) → build u stmts = .error .metaErr) ∧
     ((∃ c ∈ newTables stmts, attrNamesOk u c.attrs = false) → build u stmts = .error .metaErr) ∧
     (KindsDistinct u (newTables stmts) → (∀ c ∈ newTables stmts, attrNamesOk u c.attrs = true) →
@@ -167,7 +165,7 @@ theorem build_outcome_complete_meta (u : UC) (stmts : List Stmt) (hp : touchesIn
       (∀ kind name attrs, Stmt.createIndex kind name attrs ∈ stmts → attrs ≠ [] → ∃ c ∈ newTables stmts, sameKind u c.kind kind = true) →
       (∃ rel sk sc skeys sp tk tc tkeys tp, Stmt.createRop rel sk sc skeys sp tk tc tkeys tp ∈ stmts ∧
         RopBad u (newTables stmts) sk skeys tk tkeys) → build u stmts = .error .metaErr) :=
-  ⟨build_fails_duplicate u stmts hp, build_fails_attr_names u stmts hp, build_fails_index u stmts hp, build_fails_rop u stmts hp⟩
+  ⟨build_fails_duplicate u stmts, build_fails_attr_names u stmts, build_fails_index u stmts, build_fails_rop u stmts⟩
 
 /-- the first phase succeeds EXACTLY when the declared class names are distinct after upper-casing and no CREATE TABLE
     states two attribute names that coincide after upper-casing (`attrNamesOk`, which decides `Nodup` of the upper-cased
@@ -176,10 +174,47 @@ theorem classes_phase_iff (u : UC) (stmts : List Stmt) :
     (∃ s, popClasses u stmts BState.empty = .ok s) ↔
       (KindsDistinct u (newTables stmts) ∧ ∀ c ∈ newTables stmts, attrNamesOk u c.attrs = true) := popClasses_ok_iff u stmts
 
+/-- RESERVED NAMES (`_is_reserved`: `__x__`): a CREATE TABLE with such an attribute name, a CREATE ROP (between declared
+    classes) with such a source key, and a named INSERT that creates its class with such a column each end the build in
+    the metamodel exception -/
+theorem reserved_names_rejected (u : UC) (stmts : List Stmt) :
+    ((∃ kind attrs, Stmt.createTable kind attrs ∈ stmts ∧ ∃ a ∈ attrs, isDunder a.1 = true) → build u stmts = .error .metaErr) ∧
+    (∀ s kind values n ns, (n :: ns).length = values.length → s.find? u kind = none → (∃ x ∈ n :: ns, isDunder x = true) →
+      popInstance u s kind values (some (n :: ns)) = .error .metaErr) ∧
+    (∀ classes sk skeys tk tkeys, skeys.any isDunder = true → RopBad u classes sk skeys tk tkeys) := by
+  refine ⟨?_, ?_, ?_⟩
+  · intro ⟨kind, attrs, hm, a, ha, hd⟩
+    apply build_fails_attr_names
+    refine ⟨⟨kind, attrs, [], [], []⟩, ?_, ?_⟩
+    · clear ha hd
+      induction stmts with
+      | nil => simp at hm
+      | cons st rest ih =>
+        simp only [List.mem_cons] at hm
+        rcases hm with rfl | hm
+        · simp [newTables]
+        · cases st <;> simp [newTables, ih hm]
+    · cases h : attrNamesOk u attrs with
+      | false => rfl
+      | true => have := ((attrNamesOk_iff u attrs).mp h).2 a ha; rw [hd] at this; cases this
+  · intro s kind values n ns hl hf ⟨x, hx, hd⟩
+    apply popInstance_name_clash u s kind values n ns hl hf
+    cases h : attrNamesOk u (inferredAttrs u (n :: ns) values) with
+    | false => rfl
+    | true =>
+      exfalso
+      have hnames := inferredAttrs_names u (n :: ns) values hl
+      have hmem : x ∈ (inferredAttrs u (n :: ns) values).map (fun a => a.1) := by rw [hnames]; exact hx
+      obtain ⟨a, ha, rfl⟩ := List.mem_map.mp hmem
+      have := ((attrNamesOk_iff u _).mp h).2 a ha
+      rw [hd] at this; cases this
+  · intro classes sk skeys tk tkeys h
+    exact Or.inr (Or.inr (Or.inl h))
+
 /-- what the attribute loop of `define_class` decides, and that the names `_0`, `_1`, … which the loader invents for a
     positional INSERT into an undeclared class always pass it -/
 theorem attr_names_check (u : UC) (attrs : List (Name × Name)) (values : List Text) :
-    (attrNamesOk u attrs = true ↔ (attrs.map fun a => u.upper a.1).Nodup) ∧
+    (attrNamesOk u attrs = true ↔ ((attrs.map fun a => u.upper a.1).Nodup ∧ ∀ a ∈ attrs, isDunder a.1 = false)) ∧
     attrNamesOk u (inferredAttrs u (positionalNames values.length) values) = true :=
   ⟨attrNamesOk_iff u attrs, attrNamesOk_positional u values⟩
 
@@ -204,18 +239,18 @@ theorem insert_outcome_complete (u : UC) (s : BState) (kind : Name) (values : Li
 
 /-- … and the first INSERT that fails decides the outcome of the build when the definition phases succeed -/
 theorem build_first_failing_insert (u : UC) (pre post : List Stmt) (kind : Name) (values : List Text) (names : Option (List Name))
-    (s1 s2 s3 s' : BState) (e : BuildErr) (hp : touchesInternals (pre ++ Stmt.insert kind values names :: post) = false)
+    (s1 s2 s3 s' : BState) (e : BuildErr)
     (h1 : popClasses u (pre ++ Stmt.insert kind values names :: post) BState.empty = .ok s1)
     (h2 : popIdents u (pre ++ Stmt.insert kind values names :: post) s1 = .ok s2)
     (h3 : popAssocs u (pre ++ Stmt.insert kind values names :: post) s2 = .ok s3)
     (hpre : popInstances u pre s3 = .ok s') (hins : popInstance u s' kind values names = .error e) :
     build u (pre ++ Stmt.insert kind values names :: post) = .error e :=
-  build_fails_insert u pre post kind values names s1 s2 s3 s' e hp h1 h2 h3 hpre hins
+  build_fails_insert u pre post kind values names s1 s2 s3 s' e h1 h2 h3 hpre hins
 
 /-- statements other than INSERT never make a build end in the parsing exception -/
-theorem build_parsing_needs_insert (u : UC) (stmts : List Stmt) (hp : touchesInternals stmts = false)
+theorem build_parsing_needs_insert (u : UC) (stmts : List Stmt)
     (h : build u stmts = .error .parseErr) : ∃ kind values names, Stmt.insert kind values names ∈ stmts := by
-  have hf := (build_error_iff u stmts _ hp).mp h
+  have hf := (build_error_iff u stmts _).mp h
   cases hf with
   | insert s1 s2 s3 _ _ _ _ hfi =>
     obtain ⟨pre, k, v, n, post, s', hs, _, _⟩ := hfi
@@ -226,8 +261,7 @@ theorem build_parsing_needs_insert (u : UC) (stmts : List Stmt) (hp : touchesInt
     methods in the source now (generated table Gen/BuildShape.lean) — classes, unique identifiers, associations,
     instances, connections (the last one modelled as far as it can raise: `popConnections`).  Reordering the calls in the source changes the table and breaks this theorem. -/
 theorem build_follows_source (u : UC) (stmts : List Stmt) :
-    build u stmts = if touchesInternals stmts then .error .unmodelled
-      else runPhases u stmts Gen.BuildShape.populateOrder BState.empty := build_eq_runPhases u stmts
+    build u stmts = runPhases u stmts Gen.BuildShape.populateOrder BState.empty := build_eq_runPhases u stmts
 
 /-- SOURCE TIE, shape of `build_metamodel`, `input` and `populate_associations`: a fresh metamodel is created, populated
     and returned; `input` binds the result of parsing the WHOLE text to a name and only then extends `self.statements`
@@ -262,13 +296,15 @@ example (u : UC) : classify u [] = .accepted [] := by simp [classify, lex_nil, p
 
 /-- AN ACCEPTED, NON-EMPTY TEXT (a class and one row, printed by the writers' model) and what the theorems say about it:
     it is accepted with exactly its two statements, `input` appends them (`input_extends`), the hypotheses of
-    `build_outcome_total` hold (`values_classified`), and the build succeeds -/
+    `build_outcome_total` hold (`values_classified`), `build_outcome_total` APPLIED gives the three documented outcomes, and
+    the build in fact succeeds -/
 example : ∃ text stmts,
     printItems UC.ascii [.cls ['A'] [(['s'], "STRING".toList)], .inst ['A'] [(['s'], "STRING".toList)] [some (.str ['x'])]] = some text ∧
     text ≠ [] ∧ classify UC.ascii text = .accepted stmts ∧
     stmts = [.createTable ['A'] [(['s'], "STRING".toList)], .insert ['A'] ["'x'".toList] none] ∧
     Loader.fresh.input UC.ascii text = (⟨stmts⟩, .accepted) ∧
-    touchesInternals stmts = false ∧ ValuesGuessable UC.ascii stmts ∧
+    ValuesGuessable UC.ascii stmts ∧
+    ((∃ s, build UC.ascii stmts = .ok s) ∨ build UC.ascii stmts = .error .metaErr ∨ build UC.ascii stmts = .error .parseErr) ∧
     ∃ s, build UC.ascii stmts = .ok s := by
   cases hp : printItems UC.ascii [.cls ['A'] [(['s'], "STRING".toList)], .inst ['A'] [(['s'], "STRING".toList)] [some (.str ['x'])]] with
   | none => exact absurd hp (by decide)
@@ -289,9 +325,9 @@ example : ∃ text stmts,
       have : itemsStmts UC.ascii [.cls ['A'] [(['s'], "STRING".toList)], .inst ['A'] [(['s'], "STRING".toList)] [some (.str ['x'])]] =
           some [.createTable ['A'] [(['s'], "STRING".toList)], .insert ['A'] ["'x'".toList] none] := by decide
       rw [this] at hs; exact (Option.some.inj hs).symm
-    refine ⟨text, stmts, rfl, ?_, hc, hst, by simp [Loader.input, hc, Loader.fresh], ?_, accepted_guessable UC.ascii text stmts hc, ?_⟩
+    refine ⟨text, stmts, rfl, ?_, hc, hst, by simp [Loader.input, hc, Loader.fresh], values_classified UC.ascii text stmts hc,
+      build_outcome_total UC.ascii stmts (values_classified UC.ascii text stmts hc), ?_⟩
     · intro e; subst e; exact absurd hp (by decide)
-    · subst hst; decide
     · subst hst
       cases hb : build UC.ascii [.createTable ['A'] [(['s'], "STRING".toList)], .insert ['A'] ["'x'".toList] none] with
       | ok s => exact ⟨s, rfl⟩
@@ -315,17 +351,17 @@ example : build UC.ascii [.createTable ['A'] [(['i'], "INTEGER".toList)], .inser
         | .error .parseErr => true | _ => false) = true := by decide
       rw [h] at this
       cases e <;> simp at this ⊢
-  exact ⟨hb, (build_fails_iff UC.ascii _ _ (by decide)).mp hb⟩
+  exact ⟨hb, (build_fails_iff UC.ascii _ _).mp hb⟩
 
 /-- a duplicate class ends the build in the metamodel exception -/
 example (u : UC) : build u [.createTable ['A'] [], .createTable ['A'] []] = .error .metaErr := by
-  apply build_fails_duplicate u _ (by decide)
+  apply build_fails_duplicate u _
   simp [KindsDistinct, newTables]
 
 /-- two attribute names that differ only in letter case end the build in the metamodel exception (audit C12#3c) -/
 example (u : UC) : build u [.createTable ['A'] [(['X'], "INTEGER".toList), (['x'], "INTEGER".toList)],
     .insert ['A'] [['1'], ['2']] none] = .error .metaErr := by
-  apply build_fails_attr_names u _ (by decide)
+  apply build_fails_attr_names u _
   refine ⟨_, List.mem_cons_self, ?_⟩
   have e : u.upper ['x'] = ['X'] := by simp [UC.upper, UC.up, asciiUpper, isAsciiLower]
   have e' : u.upper ['X'] = ['X'] := by simp [UC.upper, UC.up, asciiUpper, isAsciiLower]
@@ -341,7 +377,7 @@ example (u : UC) : popInstance u BState.empty ['K'] [['1'], ['2']] (some [['a'],
 /-- a statement list that meets `BuildOk`: one class, one identifier, one reflexive association, one row -/
 example : BuildOk UC.ascii [.createTable ['A'] [(['i'], "INTEGER".toList)], .createIndex ['A'] ['I'] [['i']],
     .createRop ['R', '1'] ['A'] ['1'] [['i']] [] ['A'] ['1'] [['i']] [], .insert ['A'] [['7']] none] := by
-  refine ⟨by decide, by unfold KindsDistinct; decide, ?_, ?_, ?_, ?_⟩
+  refine ⟨by unfold KindsDistinct; decide, ?_, ?_, ?_, ?_⟩
   · intro c hc
     simp only [newTables, List.mem_singleton] at hc; subst hc
     decide
@@ -352,7 +388,7 @@ example : BuildOk UC.ascii [.createTable ['A'] [(['i'], "INTEGER".toList)], .cre
   · intro rel sk sc skeys sp tk tc tkeys tp hm
     simp only [List.mem_cons, List.mem_nil_iff, or_false, reduceCtorEq, false_or, Stmt.createRop.injEq] at hm
     obtain ⟨_, rfl, _, rfl, _, rfl, _, rfl, _⟩ := hm
-    refine ⟨⟨_, List.mem_singleton.mpr rfl, by decide⟩, ⟨_, List.mem_singleton.mpr rfl, by decide⟩, rfl, ?_⟩
+    refine ⟨⟨_, List.mem_singleton.mpr rfl, by decide⟩, ⟨_, List.mem_singleton.mpr rfl, by decide⟩, by decide, rfl, ?_⟩
     intro c hc _ k hk
     simp only [newTables, List.mem_singleton] at hc; subst hc
     simp only [List.mem_singleton] at hk; subst hk
